@@ -169,8 +169,8 @@ def _window_rules(rep, prog):
     window.forward(rep, prog, 'WINDOW')
     ini = prog.fn('bxdecay0::decay0_generator::initialize')
     F = cppflow.Flow(ini, helpers=cppflow.private_helpers(prog, ini, exclude=('_init_', '_reset_')))
-    g = [b for b, arm in F.throw_guards() if cppflow.mentions(b.stmt[1], '_energy_min_')
-         and cppflow.mentions(b.stmt[1], '_energy_max_')]
+    g = [b for b, arm in F.throw_guards() if cppflow.mentions(F.resolve_flags(b.stmt[1]), '_energy_min_')
+         and cppflow.mentions(F.resolve_flags(b.stmt[1]), '_energy_max_')]
     calls = [n for n in F.nodes(kind='call') if n.stmt[1] == 'decay0_generator::_init_']
     if not calls:
         raise AnalysisBroken('initialize(): call of _init_ not found')
